@@ -114,7 +114,9 @@ def root_terms(case, st, lf):
       # max_eigen_value is not reported on the eigh path: ridge reconstructed from the statistics
       lam = np.linalg.eigvalsh((Sn + Sn.T) / 2)
       maxev = float(max(lam.max(), 0.0))
-      d = case["mat_eps"] * max(maxev, 1e-6)
+      # the estimate the routine itself used, recomputed by its own power_iteration on this statistic
+      est = a["maxev_pi"][j] if "maxev_pi" in a else maxev
+      d = case["mat_eps"] * max(est, 1e-6)
     else:
       maxev = a["maxev"][j]
       d = case["mat_eps"] * max(maxev, 1e-25) * (10.0 ** max(int(a["retries"][j]) - 1, 0))
@@ -128,11 +130,13 @@ def root_terms(case, st, lf):
         64.0 * n * p * U64 * kappa + 8.0 * n * p * U32 * float(np.abs(xp).max()) * (lmax + d) \
         + 4.0 * U32 * maxev * float(np.abs(xp).max()) * case["mat_eps"]
     if case["eigh"]:
-      # the eigh path does not report the power-iteration estimate that scales its ridge; the estimate
-      # is a Rayleigh quotient (so it lies in [lmin, lmax]) accepted once it moves by <= 1e-6 (absolute)
-      # per iteration, so for statistics of small magnitude it may sit anywhere in that interval: the
-      # ridge, and with it X^p (A + d I) - I, is known only up to mat_eps * min(lmax - lmin, 64e-6) * |X^p|
-      slack += 2.0 * case["mat_eps"] * min(lmax - lmin, 64e-6) * float(np.abs(xp).max())
+      # the eigh path does not report the power-iteration estimate that scales its ridge.  The estimate is
+      # a Rayleigh quotient accepted once it moves by <= 1e-6 (absolute) per iteration, so for statistics of
+      # small magnitude or clustered eigenvalues it can be anywhere in [lmin, lmax]; it is therefore
+      # recomputed by a direct call of the same routine (see the worker).  The loop's exit test may flip by
+      # rounding between the batched and the direct evaluation, which moves the estimate by about the
+      # tolerance: the ridge is known up to mat_eps * min(lmax - lmin, 4e-6)
+      slack += 2.0 * case["mat_eps"] * min(lmax - lmin, 4e-6) * float(np.abs(xp).max())
     tau = 64.0 * n * p * U64 * kappa + 4 * U32
     out.append(("root", "root_cert %s %s %s %s %d%%nat %d%%nat %d%%positive (dymat %s) (dymat %s)" % (
         q(tau), q(slack), q(max(err, 0.0)), q(d), n, n, p, dymat(P), dymat(S)), j))
